@@ -36,5 +36,8 @@ func main() {
 		c.Replay = *replay
 	}
 	ck.Run(c)
+	if ck.Race {
+		c.CollectRaces()
+	}
 	os.Exit(c.Finish())
 }
